@@ -2835,4 +2835,44 @@ theorem step_failure_cancels_nested (s : Proto) (inp : Inp) (a : Nat) (e : Err) 
       exact cp_cancels_dead _ hres
 
 
+/-- the walk of a Task.Terminated callback does not depend on the Retry / Catch decisions the input lists -/
+theorem bub_tt_handlers_irrelevant (q : Quirks) (e : Bool) : ∀ atts a i hs hs',
+    bubble q e atts a i (.fail .taskTerminated hs) = bubble q e atts a i (.fail .taskTerminated hs') := by
+  intro atts
+  induction atts with
+  | nil => intro a i hs hs'; rfl
+  | cons x rest ih =>
+    intro a i hs hs'
+    simp only [bubble, effective_tt]
+    repeat' split
+    all_goals first
+      | rfl
+      | (rw [ih _ _ hs hs'])
+      | (rw [ih _ _ hs.tail hs'.tail])
+
+/-- the callback of a cancel produces nothing but tidy-up outputs, whatever the switches and the state -/
+theorem echo_quiet (q : Quirks) (s : Proto) (a i : Nat) : ∀ o ∈ (step q s (.echo a i)).2, o.quiet = true := by
+  simp only [step]
+  cases hf : find s.atts a with
+  | none => intro o ho; simp at ho; subst ho; rfl
+  | some x =>
+    simp only
+    split
+    · exact finish_quiet _ _ _ (bub_tt _ _ _ _ _ _).1
+    · intro o ho; simp at ho; subst ho; rfl
+
+/-- … and so does the reply of a task whose attempt is terminated, whatever continuation the reply would have had -/
+theorem reply_terminated_quiet (q : Quirks) (s : Proto) (a i : Nat) (k : Kont) (x : Attempt)
+    (hf : find s.atts a = some x) (ht : x.terminated = true) :
+    (∀ o ∈ (step q s (.reply a i k)).2, o.quiet = true) ∧ step q s (.reply a i k) = step q s (.reply a i .goesOn) := by
+  simp only [step, hf]
+  cases hs : x.slots[i]? with
+  | none => exact ⟨by intro o ho; simp at ho; subst ho; rfl, rfl⟩
+  | some sl =>
+    simp only [ht, if_true]
+    split
+    · exact ⟨finish_quiet _ _ _ (bub_tt _ _ _ _ _ _).1, trivial⟩
+    · exact ⟨by intro o ho; simp at ho; subst ho; rfl, trivial⟩
+
+
 end Asl.FanProto
